@@ -6,10 +6,10 @@
 //
 //	prog    := section ('|' section)*
 //	section := 'F' id acts ';' compl | 'A' id acts ';' compl | 'T' id slot (v|'-') acts ';' compl
-//	         | 'R' acts ';' compl | 'G' ('gnew' k g | 'gres' g v | 'grej' g v)
+//	         | 'R' acts ';' compl | 'G' ('gnew' k g | 'gres' g v | 'grej' g v) | 'C' id ('s'|'f') tid
 //	act     := log n | new k s f | res s v | rej s v | then k f g d | catch k g d | fin k f d | pres v d | prej v d
-//	         | (all|aset|race|any) d n v*n | call a d | int | await v | awaitt v
-//	compl   := ret v | throw v          f,g := '-' | id        v := u | a | n<k> | p<k> | t<id>
+//	         | (all|aset|race|any) d n v*n | (allC|asetC|raceC|anyC) d cid n v*n | call a d | int | await v | awaitt v
+//	compl   := ret v | throw v          f,g := '-' | id        v := u | a | n<k> | p<k> | t<id> | b<id>
 package main
 
 import (
@@ -26,7 +26,11 @@ import (
 )
 
 const prelude = `
-var E=[], P=[], RS=[], H=[], T=[], A=[];
+var E=[], P=[], RS=[], H=[], T=[], A=[], TF=[], TG=[], C=[];
+function B(id){var q=Promise.resolve(undefined);Object.defineProperty(q,"then",{get:TG[id],configurable:true});return q;}
+function callRS(s,i,v){try{if(RS[s]&&typeof RS[s][i]==="function")RS[s][i](v);}catch(e){E.push("e:"+repr(e));}}
+function jsThen(k,d,f,g,m){if(!P[k])return;try{var r=(m==="then")?P[k].then(f,g):(m==="catch")?P[k].catch(g):P[k].finally(f);if(r instanceof Promise)P[d]=r;}catch(e){E.push("e:"+repr(e));}}
+function comb(name,c,d,arr){var r=(c===undefined)?Promise[name](arr):Promise[name].call(C[c],arr);if(r instanceof Promise)P[d]=r;}
 function repr(v){
   if(v===undefined)return "u";
   if(typeof v==="number")return "n"+v;
@@ -64,6 +68,8 @@ func (p *parser) v(s string) string {
 		return "P[" + strconv.Itoa(p.num(s[1:])) + "]"
 	case len(s) > 1 && s[0] == 't':
 		return "T[" + strconv.Itoa(p.num(s[1:])) + "]()"
+	case len(s) > 1 && s[0] == 'b':
+		return "B(" + strconv.Itoa(p.num(s[1:])) + ")"
 	}
 	p.err = fmt.Errorf("bad value %q", s)
 	return "undefined"
@@ -115,28 +121,28 @@ func (p *parser) body(ts []string, async bool) string {
 				idx = 1
 			}
 			s := p.num(ts[i+1])
-			fmt.Fprintf(&b, "if(RS[%d])RS[%d][%d](%s);", s, s, idx, p.v(ts[i+2]))
+			fmt.Fprintf(&b, "if(RS[%d]&&typeof RS[%d][%d]===\"function\")callRS(%d,%d,%s);", s, s, idx, s, idx, p.v(ts[i+2]))
 			i += 3
 		case "then":
 			if !need(5) {
 				break
 			}
 			k := p.num(ts[i+1])
-			fmt.Fprintf(&b, "if(P[%d])P[%d]=P[%d].then(%s,%s);", k, p.num(ts[i+4]), k, p.f(ts[i+2]), p.f(ts[i+3]))
+			fmt.Fprintf(&b, "jsThen(%d,%d,%s,%s,\"then\");", k, p.num(ts[i+4]), p.f(ts[i+2]), p.f(ts[i+3]))
 			i += 5
 		case "catch":
 			if !need(4) {
 				break
 			}
 			k := p.num(ts[i+1])
-			fmt.Fprintf(&b, "if(P[%d])P[%d]=P[%d].catch(%s);", k, p.num(ts[i+3]), k, p.f(ts[i+2]))
+			fmt.Fprintf(&b, "jsThen(%d,%d,undefined,%s,\"catch\");", k, p.num(ts[i+3]), p.f(ts[i+2]))
 			i += 4
 		case "fin":
 			if !need(4) {
 				break
 			}
 			k := p.num(ts[i+1])
-			fmt.Fprintf(&b, "if(P[%d])P[%d]=P[%d].finally(%s);", k, p.num(ts[i+3]), k, p.f(ts[i+2]))
+			fmt.Fprintf(&b, "jsThen(%d,%d,%s,undefined,\"finally\");", k, p.num(ts[i+3]), p.f(ts[i+2]))
 			i += 4
 		case "pres", "prej":
 			if !need(3) {
@@ -148,21 +154,34 @@ func (p *parser) body(ts []string, async bool) string {
 			}
 			fmt.Fprintf(&b, "P[%d]=Promise.%s(%s);", p.num(ts[i+2]), m, p.v(ts[i+1]))
 			i += 3
-		case "all", "aset", "race", "any":
+		case "all", "aset", "race", "any", "allC", "asetC", "raceC", "anyC":
 			if !need(3) {
 				break
 			}
-			m := map[string]string{"all": "all", "aset": "allSettled", "race": "race", "any": "any"}[ts[i]]
-			d, n := p.num(ts[i+1]), p.num(ts[i+2])
-			if !need(3 + n) {
+			custom := strings.HasSuffix(ts[i], "C")
+			m := map[string]string{"all": "all", "aset": "allSettled", "race": "race", "any": "any"}[strings.TrimSuffix(ts[i], "C")]
+			d := p.num(ts[i+1])
+			ctor := "undefined"
+			j := i + 2
+			if custom {
+				if !need(4) {
+					break
+				}
+				ctor = strconv.Itoa(p.num(ts[j]))
+				j++
+			}
+			n := p.num(ts[j])
+			j++
+			if j+n > len(ts) {
+				p.err = fmt.Errorf("truncated combinator")
 				break
 			}
 			vs := make([]string, n)
-			for j := 0; j < n; j++ {
-				vs[j] = p.v(ts[i+3+j])
+			for q := 0; q < n; q++ {
+				vs[q] = p.v(ts[j+q])
 			}
-			fmt.Fprintf(&b, "P[%d]=Promise.%s([%s]);", d, m, strings.Join(vs, ","))
-			i += 3 + n
+			fmt.Fprintf(&b, "comb(\"%s\",%s,%d,[%s]);", m, ctor, d, strings.Join(vs, ","))
+			i = j + n
 		case "call":
 			if !need(3) {
 				break
@@ -249,10 +268,23 @@ func runCase(line string) string {
 			id, slot := p.num(ts[1]), p.num(ts[2])
 			body := p.body(ts[4:], false)
 			if ts[3] != "-" {
-				fmt.Fprintf(&defs, "T[%d]=function(){return {tid:%d,get then(){E.push(\"g%d\");var a;throw %s;}};};\n", id, id, id, p.v(ts[3]))
+				fmt.Fprintf(&defs, "TG[%d]=function(){E.push(\"g%d\");var a;throw %s;};\n", id, id, p.v(ts[3]))
 			} else {
-				fmt.Fprintf(&defs, "T[%d]=function(){return {tid:%d,get then(){E.push(\"g%d\");return function(x,y){var a;RS[%d]=[x,y];E.push(\"t%d\");%s};}};};\n", id, id, id, slot, id, body)
+				fmt.Fprintf(&defs, "TF[%d]=function(x,y){var a;RS[%d]=[x,y];E.push(\"t%d\");%s};\nTG[%d]=function(){E.push(\"g%d\");return TF[%d];};\n", id, slot, id, body, id, id, id)
 			}
+			fmt.Fprintf(&defs, "T[%d]=function(){var o={tid:%d};Object.defineProperty(o,\"then\",{get:TG[%d]});return o;};\n", id, id, id)
+		case "C":
+			if len(ts) != 4 || (ts[2] != "s" && ts[2] != "f") {
+				return "PARSE-ERROR"
+			}
+			id, tid := p.num(ts[1]), p.num(ts[3])
+			if ts[2] == "s" {
+				// a subclass whose instances still report %Promise% as their constructor (so promiseResolve / species treat them as plain promises)
+				fmt.Fprintf(&defs, "C[%d]=class extends Promise{};C[%d].prototype.constructor=Promise;\n", id, id)
+			} else {
+				fmt.Fprintf(&defs, "C[%d]=function(ex){E.push(\"C%d\");var o={cid:%d};ex(function(v){E.push(\"R%d:\"+repr(v));},function(e){E.push(\"J%d:\"+repr(e));});return o;};\n", id, id, id, id, id)
+			}
+			fmt.Fprintf(&defs, "C[%d].resolve=function(v){E.push(\"cr%d:\"+repr(v));return T[%d]();};\n", id, id, tid)
 		case "R":
 			segs = append(segs, seg{kind: "run", js: "(function(){var a;" + p.body(ts[1:], false) + "})();"})
 		case "G":
